@@ -2,7 +2,11 @@
 
 package config
 
-import "github.com/magiconair/properties"
+import (
+	"time"
+
+	"github.com/magiconair/properties"
+)
 
 // Verification hooks (build tag verif): thin exported wrappers around unexported code so that the
 // correspondence harness in /verif can call the real thing in-process. No behaviour is changed.
@@ -24,4 +28,22 @@ func VerifLoad(cmdline, environ, envprefix []string, props *properties.Propertie
 }
 
 // VerifParse exposes parse (the -cfg/-v pre-pass over the command line).
-func VerifParse(args []string) (cmdline []string, path string, version bool, err error) { return parse(args) }
+func VerifParse(args []string) (cmdline []string, path string, version bool, err error) {
+	return parse(args)
+}
+
+// VerifListenFieldOK says whether parseListen's own parser for the listener key k accepts v (durations, TLS
+// versions, cipher lists); keys without a parser are always fine.
+func VerifListenFieldOK(k, v string) bool {
+	loadCiphers()
+	var err error
+	switch k {
+	case "rt", "wt", "it", "pxytimeout", "refresh":
+		_, err = time.ParseDuration(v)
+	case "tlsmin", "tlsmax":
+		_, err = parseTLSVersion(v)
+	case "tlsciphers":
+		_, err = parseTLSCiphers(v)
+	}
+	return err == nil
+}
